@@ -232,7 +232,7 @@ func vfSymTrue(c bool) bool {
 
 // ---- generic clip: nil exactly when nothing remains, never a vertex outside (catalogue shapes) ----
 
-func vfC08Geometry_N(tier int) int     { return 9 }
+func vfC08Geometry_N(tier int) int     { return 12 }
 func vfC08Geometry_Label(c int) string { return "kind#" + strconv.Itoa(c) }
 
 func vfAllInBox(box orb.Bound, g orb.Geometry) bool {
@@ -304,6 +304,16 @@ func vfC08Geometry(c int) {
 		inside, outside = orb.Collection{orb.Point{1, 1}, orb.LineString{far, {8, 8}}, vfRings[4].Clone()}, orb.Collection{far, orb.LineString{far, {8, 8}}}
 	case 8:
 		inside, outside = orb.Bound{Min: orb.Point{1, 1}, Max: orb.Point{5, 5}}, orb.Bound{Min: orb.Point{7, 7}, Max: far}
+	case 9:
+		// members on both sides of the box: the overall bound meets the box, no member does
+		l, r := orb.Ring{{-3, 0}, {-1, 0}, {-1, 2}, {-3, 2}, {-3, 0}}, orb.Ring{{3, 0}, {5, 0}, {5, 2}, {3, 2}, {3, 0}}
+		inside, outside = orb.MultiPolygon{{l.Clone()}, {vfRings[4].Clone()}}, orb.MultiPolygon{{l}, {r}}
+	case 10:
+		inside, outside = orb.MultiLineString{{{-3, 1}, {-1, 1}}, {{1, 1}, {1.5, 1.5}}}, orb.MultiLineString{{{-3, 1}, {-1, 1}}, {{3, 1}, {5, 1}}}
+	case 11:
+		l, r := orb.Ring{{-3, 0}, {-1, 0}, {-1, 2}, {-3, 2}, {-3, 0}}, orb.Ring{{3, 0}, {5, 0}, {5, 2}, {3, 2}, {3, 0}}
+		inside = orb.Collection{orb.MultiPolygon{{l.Clone()}, {r.Clone()}}, orb.Point{1, 1}}
+		outside = orb.Collection{orb.MultiPolygon{{l}, {r}}, orb.MultiPoint{{-1, 1}, {3, 1}}, orb.Polygon{r.Clone()}}
 	}
 	vfReach("geometry")
 	gi := Geometry(box, inside)
@@ -312,4 +322,12 @@ func vfC08Geometry(c int) {
 		vfAssert("no-vertex-outside", vfAllInBox(box, gi))
 	}
 	vfAssert("nothing-remains-nil", Geometry(box, outside) == nil)
+	if mp, ok := outside.(orb.MultiPolygon); ok {
+		vfAssert("multipolygon-nothing-remains-nil", MultiPolygon(box, mp) == nil)
+	}
+	if c == 11 {
+		// a member of which nothing remains does not stay in the collection
+		col, _ := gi.(orb.Collection)
+		vfAssert("collection-drops-vanished-members", gi != nil && (col == nil || len(col) == 1))
+	}
 }
